@@ -33,16 +33,16 @@ CLAIMS = {
    note="'empty statement for none' = none of the seven statement members the library knows is set. cbor2 is modelled on a subset; X.509/OpenSSL are oracles.",
    technique="Coq proof (error-monad inversion over the registration model) + differential fault catalogue with forged attestations", ref="3/C02"),
  "C03": dict(
-   text="Per-format soundness theorems (arbitrary oracles): an accepted packed / fido-u2f / tpm / apple / android-key / android-safetynet statement satisfies the declared rules of that format, stated over the abstract certificate record and the TPM structure decoders. Correspondence: ~100-entry per-step catalogue with forged PKIs, TPM structures, KeyDescription and JWS, all TPM name algorithms, attestation key algorithms.",
+   text="Per-format CHARACTERISATION theorems (arbitrary oracles, iff): a packed / fido-u2f / tpm (incl. AIK profile) / apple / android-key / android-safetynet statement is accepted exactly when it satisfies the declared rules of that format, stated over the abstract certificate record and the TPM structure decoders; the dispatch accepts a statement iff it meets the rules of the format it names. A real packed self-attestation is evaluated by the kernel (non-vacuity). Correspondence: ~120-entry per-step catalogue with forged PKIs, TPM structures, KeyDescription and JWS, all TPM name algorithms, attestation key algorithms.",
    note="Certificate/KeyDescription contents reach the model through an abstract record produced by the harness's own DER reading; DER parsing is not verified. Three genuine defects found by this check were fixed in /repo (see known_findings.json).",
    technique="Coq proof (inversion per format verifier) + differential per-step fault catalogue", ref="3/C03"),
  "C04": dict(
-   text="Theorems: which anchors are handed to chain validation per format (RP roots for that format ++ built-ins), roots of other formats are never consulted, accepted x5c registrations with anchors in force went through the validator, pass-through only with no anchors. OpenSSL path validation is an oracle validated differentially (chain shapes x root configurations x chain faults, clock replays).",
-   note="PARTIAL: OpenSSL's path builder is an oracle; its agreement with the abstract valid-path spec is tested on generated shapes, not proved.",
+   text="Theorems: which anchors are handed to chain validation per format (RP roots for that format ++ built-ins), roots of other formats are never consulted, accepted x5c registrations with anchors in force went through the validator, pass-through only with no anchors; an executable certification-path search is proved equivalent to the declarative valid-path spec (fuel bound by a pigeonhole argument). OpenSSL path validation is an oracle; its verdict is compared with the proved path search on every chain explored (chain shapes x root configurations x chain faults, clock replays).",
+   note="PARTIAL: OpenSSL's path builder is an oracle; 'OpenSSL accepts => the path spec accepts' is an explicit hypothesis of the theorem that uses it, checked on every explored chain (harness/chainview.py abstraction), not proved.",
    technique="Coq proof (anchor-selection/isolation lemmas) + differential forged-PKI check", ref="3/C04"),
  "C05": dict(
    text="Fidelity theorems (arbitrary oracles): returned fields equal what the authenticator data says (id, key bytes, counter, UUID text, fmt, UV, BE, BS, raw attestation object); table obligations on regenerated constants (default algorithms mapped, every TCG registry vendor id present). Correspondence: seeded sampling of the full product incl. every vendor id; all returned fields compared.",
-   note="Completeness ('every conformant ceremony is accepted') is proved for authentication (iff characterisation) and evaluated by sampling for registration formats.",
+   note="Completeness is proved at the level of the declarative predicates: AuthAccepted -> accepted, RegAccepted -> accepted, and per format StatementRules -> statement accepted; that the simulator's ceremonies satisfy those predicates is evaluated by sampling the product.",
    technique="Coq proof (inversion + table obligations by vm_compute) + differential product sampling", ref="3/C05"),
  "C06": dict(
    text="Theorem (under explicit hypotheses sig_binds_msg / sha256 collision-freeness as premises): any change of authenticatorData, clientDataJSON or signature of an accepted assertion is rejected - the proof content is that the whole raw bytes reach the verifier. Exhaustive bit-flip evaluation over every position for authentication and signed registration formats.",
@@ -53,7 +53,7 @@ CLAIMS = {
    note="Key-separation between distinct credentials is a cryptographic premise (tested).",
    technique="Coq proof (CBOR round-trip by nested induction) + differential ceremony chains", ref="3/C08"),
  "C11": dict(
-   text="Theorems: canonical CBOR of any well-formed value decodes to exactly that value and rest (unbounded nesting); header fields exact; attested data iff AT, extensions iff ED; every byte string yields a complete record or one of two library exceptions; short input rejected. Correspondence: structured layouts, EVERY truncation point and 1-8 byte suffixes, arbitrary bytes, CBOR-aware mutations, cbor2 vs model decoder/encoder directly.",
+   text="Theorems: canonical CBOR of any well-formed value decodes to exactly that value and rest (nesting up to the modelled 256 levels); the encoding is prefix-free for the decoder; EVERY laid-out authenticator data parses to exactly its fields, with ANY suffix it is rejected, and EVERY strict prefix of it is rejected; header fields exact; attested data iff AT, extensions iff ED; every byte string yields a complete record or one of two library exceptions. Correspondence: structured layouts, EVERY truncation point and 1-8 byte suffixes, arbitrary bytes, CBOR-aware mutations, cbor2 vs model decoder/encoder directly.",
    note="cbor2 is modelled on a subset (floats/tags/simple values/indefinite lengths answer Unmodelled).",
    technique="Coq proof (nested induction over CBOR values, lia) + differential exhaustive truncation check", ref="3/C11"),
  "C12": dict(
@@ -81,7 +81,7 @@ CLAIMS = {
    note="PARTIAL: interleavings inside C extensions are not modelled; the thread run is a test. One genuine defect fixed in /repo.",
    technique="Coq proof (invariant by induction over operation histories on a heap model) + differential histories", ref="3/C18"),
  "C19": dict(
-   text="Theorems: every exported exception class derives from the base (finite obligation over the reflective export); every guard of both verifiers and all format verifiers raises a library class on well-formed inputs; parsers total (C11/C13 totals). Correspondence/direct evaluation: every catalogue fault and pairs, malformed signatures, arbitrary inputs into the named parsers.",
+   text="Theorems: every exported exception class derives from the base (finite obligation over the reflective export); every guard of both verifiers raises a library class on well-formed inputs; each of the six format verifiers answers Ok or a library exception on a structurally well-formed statement (hypothesis shown satisfiable by a kernel-evaluated real statement); parsers total (C11/C13 totals). Correspondence/direct evaluation: every catalogue fault and pairs, malformed signatures, arbitrary inputs into the named parsers.",
    note="'Well-formed' excludes inputs on which third-party libraries raise their own errors (unparseable certificates, keys not on the curve). One genuine defect fixed in /repo.",
    technique="Coq proof (finite table obligation + inversion) + fault-catalogue exception-class evaluation", ref="3/C19"),
  "C20": dict(
